@@ -46,6 +46,16 @@ CAUGHT = {
  "C19-3": ("C19", "C19 [C15 pooled buffer recycled twice for one acquisition: SendOOB then SendOOB]"), "C19-4": ("C19", "C19 oversize out-of-band payload accepted"),
  "C20-3": ("C20", "C20 Pop: queue model mismatch (slot retains element)"), "C20-4": ("C20", "C20 ForEachReverse: queue model mismatch"),
 }
+CAUGHT.update({
+ "C01-5": ("C01, C15", "C01 [C15 pooled buffer recycled twice for one acquisition: UDPSession.postProcess ...]"), "C01-6": ("C01", "C01 message boundary not preserved; history not linearizable"),
+ "C02-5": ("C02, C13", "C02 transfer did not complete within the virtual-time limit"), "C02-6": ("C02", "C02 sender's backlog did not return to zero although everything was delivered"),
+ "C04-5": ("C04, C05", "C04 delivery queue holds more than one receive window"), "C04-6": ("C04", "C04 new segment admitted beyond min(send window, peer window, ...)"),
+ "C05-5": ("C05", "C05 child died: panic: invalid memory address or nil pointer dereference"), "C05-6": ("C05, C04", "C05 hostile input broke a buffering bound of the core"),
+ "C09-5": ("C09", "C09 two identical datagrams emitted under a cipher; FEC sequence id repeated; nonce repeated (batch-write-error part)"), "C09-6": ("C09", "C09 nonce repeated (concurrent callers part)"),
+ "C11-5": ("C11", "C11 a session sharing the socket stalled (real-time throttled-neighbour part)"), "C11-6": ("C11", "C11 dialled session accepted a datagram that did not come from its peer's address"),
+ "C13-5": ("C13", "C13 read: wrong number of callers woke on data arrival; readable data left unclaimed"), "C13-6": ("C13, C02", "C13 read: wrong number of callers woke on data arrival (through FEC recovery)"),
+ "C15-5": ("C15", "C15 library goroutine still alive / scheduled callback still pending (part 1c)"), "C15-6": ("C15, C01", "C15 pooled buffer recycled twice for one acquisition"),
+})
 NOTE = {
  "C17-4": "not kept: on the tree before fix 3121c8c this change could not be told apart from the unchanged scheduler's own lateness (S19, found by the busy-worker part written for it); with S19 repaired the change no longer alters behaviour and its demonstration passes",
 }
